@@ -5,6 +5,7 @@
 From Coq Require Import ZArith List String Lia.
 From FxV Require Import model.M_EndBlock model.M_Tally gen.Gen_EndBlock proofs.P_EndBlock proofs.P_Tally.
 From FxV Require Import lib.Dec model.M_Gov proofs.P_Gov proofs.P_Gov2 proofs.P_Gov3.
+From FxV Require Import model.M_GovShape gen.Gen_GovShape proofs.P_Gov5.
 From FxV Require Import model.M_OsetPhase proofs.P_OsetPhase.
 Import ListNotations.
 Open Scope Z_scope.
@@ -69,11 +70,24 @@ Theorem C07_tally_hoisted_division_panics :
 Proof. exact hoisted_panics. Qed.
 Print Assumptions C07_tally_hoisted_division_panics.
 
-(* gov end blocker (model M_Gov of x/gov, see Prop_C15): after ANY history of submit / deposit / vote / end-block
-   operations in which no passed proposal spends from the governance module account and no stored proposal record is
-   made undecodable, closing proposals (refund or burn of every deposit, tally, message execution on a cache branch)
-   never fails.  Without the first guard it does fail: known finding C15-2, which this check reproduces on the real
-   FinalizeBlock on every run; without the second: known finding C15-3 (the failUnsupportedProposal branches). *)
+(* gov end blocker (model M_Gov of x/gov, see Prop_C15): after ANY history of submit / deposit / vote / corrupt-record /
+   end-block operations in which no passed proposal moves coins out of the governance module account, closing proposals
+   (refund or burn of every deposit, tally, message execution on a cache branch, the branches for undecodable stored
+   proposals) never fails — stated for parameters carrying the two facts the translator reads from x/gov/abci.go of this
+   tree (both undecodable-proposal branches dequeue by the walk's own key: C15-3, repaired in /repo e5a1e24 and pinned
+   by C15_tree_dequeues_undecodable_by_key).  Without the remaining guard it does fail: known finding C15-2, which this
+   check reproduces on the real FinalizeBlock on every run. *)
+Theorem C07_gov_endblock_total_on_tree : forall P kf b c ops s ev t stk,
+  bad_inactive_dequeued P = sh_bad_inactive_dequeued gen_shape ->
+  bad_active_dequeued_by_key P = sh_bad_active_dequeued_by_key gen_shape ->
+  Forall op_no_govsend ops ->
+  run P kf (init b c) ops = (s, ev) ->
+  end_block P kf t stk s <> None.
+Proof. exact end_block_never_fails_on_tree. Qed.
+Print Assumptions C07_gov_endblock_total_on_tree.
+
+(* the same for ANY variant of those two branches, then with the second guard "no stored proposal record is made
+   undecodable" *)
 Theorem C07_gov_endblock_total : forall P kf b c ops s ev t stk,
   Forall op_no_govsend ops -> Forall op_no_corrupt ops ->
   run P kf (init b c) ops = (s, ev) ->
